@@ -1170,7 +1170,7 @@ Proof.
     destruct (sig_nodes (tsig E) s (tl (rev (prefixes p)))); [|discriminate].
     destruct (wf_width (fw f)) eqn:W; [|discriminate]. injection Tl as <- _.
     destruct (eval (tsig E) st e) as [v|er]; cbn [bind fst snd]; [|destruct er; cbn in *; auto].
-    cbn in RR. destruct (negb blocking && negb match p, fstruct f with [], None => true | _, _ => false end); [exact I|].
+    cbn in RR. destruct (negb blocking && negb _); [exact I|].
     destruct (store_ok (sig_ann f) R v RR PR Ov Hc) as (u & Hu & _); [unfold wf_width in W; unfold wfn; cbn; lia|].
     cbn [sig_ann aw] in Hu. rewrite Hu. cbn [bind stmt_res_ok].
     eapply env_ok_same; [| |exact Henv]; destruct blocking; reflexivity.
